@@ -525,7 +525,113 @@ Theorem unregistered_refused : forall reg cs,
   lookup_resolver reg (cs_type cs) = None -> validate_status reg cs = Err EStatusType.
 Proof. intros reg cs H. unfold Status.validate_status. rewrite H. reflexivity. Qed.
 
+(* Register/Delete histories: what Get answers for a type after ANY history is decided by
+   the last operation that names the type - Register: that resolver, Delete: nothing -
+   and by the registry before the history when no operation names it *)
+Definition hist_step (ty : string) (cur : option resolver) (o : regop) : option resolver :=
+  match o with
+  | ORegister t r => if String.eqb t ty then Some r else cur
+  | ODelete t => if String.eqb t ty then None else cur
+  end.
+
+Theorem registry_history : forall (ops : list regop) (reg : registry) (ty : string),
+  lookup_resolver (reg_history reg ops) ty = fold_left (hist_step ty) ops (lookup_resolver reg ty).
+Proof.
+  unfold reg_history. induction ops as [|o ops IH]; intros reg ty; simpl; [reflexivity|].
+  rewrite IH. f_equal. destruct o as [t r|t]; simpl.
+  - destruct (String.eqb_spec t ty) as [->|Hne].
+    + apply lookup_register_same.
+    + apply lookup_register_other. congruence.
+  - destruct (String.eqb_spec t ty) as [->|Hne].
+    + apply lookup_delete_same.
+    + apply lookup_delete_other. congruence.
+Qed.
+
+(* corollaries: the last registration wins; a type never registered (or deleted last) is an error *)
+Corollary registry_last_wins : forall ops reg ty r more,
+  (forall o, In o more -> match o with ORegister t _ | ODelete t => t <> ty end) ->
+  lookup_resolver (reg_history reg (ops ++ ORegister ty r :: more)) ty = Some r.
+Proof.
+  intros ops reg ty r more Hm. rewrite registry_history, fold_left_app. simpl.
+  rewrite String.eqb_refl.
+  induction more as [|o more IH]; simpl; [reflexivity|].
+  assert (Ho := Hm o (or_introl eq_refl)).
+  destruct o as [t r'|t]; simpl; (destruct (String.eqb_spec t ty); [contradiction|]);
+    apply IH; intros o' Hin; apply Hm; right; exact Hin.
+Qed.
+
+Corollary registry_never_registered : forall ops cs,
+  (forall o, In o ops -> match o with ORegister t _ => t <> cs_type cs | ODelete _ => True end) ->
+  validate_status (reg_history [] ops) cs = Err EStatusType.
+Proof.
+  intros ops cs Hm. apply unregistered_refused. rewrite registry_history.
+  change (lookup_resolver [] (cs_type cs)) with (@None resolver).
+  induction ops as [|o ops IH]; simpl; [reflexivity|].
+  assert (Ho := Hm o (or_introl eq_refl)).
+  destruct o as [t r|t]; simpl.
+  - destruct (String.eqb_spec t (cs_type cs)); [contradiction|].
+    apply IH. intros o' Hin. apply Hm. right. exact Hin.
+  - destruct (String.eqb t (cs_type cs)); apply IH; intros o' Hin; apply Hm; right; exact Hin.
+Qed.
+
+
 End StatusTheory.
+
+(* ------------------------------------------------------------------ *)
+(* 5c. a non-existence proof whose auxiliary key IS the queried key     *)
+(* ------------------------------------------------------------------ *)
+
+(* tree level (go-merkletree-sql RootFromProof): such a proof has no root, for any hash *)
+Theorem nonex_aux_key_differs_smt : forall (hl hm : Z -> Z -> Z) p k v av,
+  ex p = false -> aux p = Some (k, av) ->
+  root_from_proof hl hm p k v = None /\ forall r, verify_proof hl hm r p k v = false.
+Proof.
+  intros hl hm p k v av He Ha.
+  assert (H : root_from_proof hl hm p k v = None).
+  { unfold root_from_proof, proof_mid. rewrite He, Ha, Z.eqb_refl. reflexivity. }
+  split; [exact H|]. intro r. unfold verify_proof. rewrite H. reflexivity.
+Qed.
+
+(* validator level: ValidateCredentialStatus never answers success nor "revoked" on it *)
+Theorem nonex_aux_key_differs : forall (poseidon : list Z -> Z) (q : Z), 0 < q <= 2 ^ 256 ->
+  forall reg cs a av,
+  0 <= cs_nonce cs < q -> resolved reg cs a ->
+  r_ex (a_mtp a) = false -> r_aux (a_mtp a) = Some (Some (cs_nonce cs), Some av) ->
+  exists t, Status.validate_status poseidon q reg cs = Err t /\ t <> ERevoked.
+Proof.
+  intros P q0 Hq reg cs a av Hn Hres He Ha.
+  assert (Hnot : ~ status_verified P q0 a (cs_nonce cs)).
+  { intros (_ & rr & _ & p & Hp & _ & Hv).
+    unfold proof_of in Hp. rewrite Ha in Hp. inversion Hp; subst p.
+    destruct (nonex_aux_key_differs_smt (hl P) (hm P)
+                (mkproof (r_ex (a_mtp a)) (r_sibs (a_mtp a)) (Some (cs_nonce cs, av)))
+                (cs_nonce cs) 0 av He eq_refl) as (_ & Hf).
+    rewrite Hf in Hv. discriminate. }
+  destruct (decision_other P q0 Hq reg cs Hn) as [(a' & Hok)|[Hrev|Herr]].
+  - apply (decision_ok P q0 Hq reg cs a' Hn) in Hok. destruct Hok as (Hres' & Hsv & _).
+    rewrite (resolved_fun _ _ _ _ Hres' Hres) in Hsv. contradiction.
+  - apply (decision_revoked P q0 Hq reg cs Hn) in Hrev. destruct Hrev as (a' & Hres' & Hsv & _).
+    rewrite (resolved_fun _ _ _ _ Hres' Hres) in Hsv. contradiction.
+  - exact Herr.
+Qed.
+
+(* the variant that walks up from the auxiliary leaf WITHOUT that check *)
+Definition verify_proof_nocheck (hl hm : Z -> Z -> Z) (r : Z) (p : proof) (k v : Z) : bool :=
+  let mid := if ex p then hl k v
+             else match aux p with None => 0 | Some (ak, av) => hl ak av end in
+  up hm k 0 (sibs p) mid =? r.
+
+(* ... is refuted for every hash: it "proves" the absence of the only key of a tree *)
+Theorem nonex_aux_key_nocheck_refuted : forall (hl hm : Z -> Z -> Z) (k : Z),
+  exists t p, wf 40 t /\ In k (keys t) /\ ex p = false /\
+              verify_proof_nocheck hl hm (root hl hm t) p k 0 = true /\
+              verify_proof hl hm (root hl hm t) p k 0 = false.
+Proof.
+  intros hl hm k. exists (L k 0), (mkproof false [] (Some (k, 0))).
+  split; [unfold wf; simpl; apply Nat.lt_0_succ|]. split; [left; reflexivity|]. split; [reflexivity|]. split.
+  - unfold verify_proof_nocheck. simpl. apply Z.eqb_refl.
+  - apply (nonex_aux_key_differs_smt hl hm _ k 0 0); reflexivity.
+Qed.
 
 (* ------------------------------------------------------------------ *)
 (* 6. against a real revocation tree                                    *)
@@ -911,6 +1017,52 @@ Proof.
 Qed.
 
 (* ------------------------------------------------------------------ *)
+(* 5a'. the acceptance gate of the HTTP resolver over the body BYTES    *)
+(* ------------------------------------------------------------------ *)
+
+(* an answer is used only if 200 <= code < 300, the body is shorter than the limit and is
+   EXACTLY ONE JSON value, and that value decodes to the answer *)
+Theorem http_gate : forall code body read_ok close_ok wire a,
+  http_resolve_body code body read_ok close_ok wire = Ok a <->
+  200 <= code < 300 /\ read_ok = true /\ close_ok = true /\
+  Z.of_nat (String.length body) < limit_reader_bytes /\
+  json_one_value body = true /\ parse_status_body wire = Some a.
+Proof.
+  intros code body rd cl wire a. unfold http_resolve_body. rewrite http_answer_iff. split.
+  - intros (c & l & H & Hc & Hl). inversion H; subst.
+    destruct (Z.leb_spec limit_reader_bytes (Z.of_nat (String.length body))) as [Hge|Hlt];
+      [discriminate|].
+    destruct (json_one_value body); [|discriminate]. repeat split; auto; lia.
+  - intros (Hc & -> & -> & Hl & Hj & Hp).
+    exists code, (Z.of_nat (String.length body)).
+    destruct (Z.leb_spec limit_reader_bytes (Z.of_nat (String.length body))) as [Hge|Hlt]; [lia|].
+    rewrite Hj, Hp. repeat split; auto; lia.
+Qed.
+
+(* "exactly one": once the tokens of a text form a complete value, ANY further token makes
+   the text invalid (this is what a streaming decoder, which stops after the first value,
+   does not check) *)
+Lemma jstep_none : forall toks, fold_left jstep toks None = None.
+Proof. induction toks; simpl; auto. Qed.
+
+Theorem json_tokens_one_value : forall toks more,
+  jaccepts toks = true -> more <> [] -> jaccepts (toks ++ more) = false.
+Proof.
+  intros toks more Ha Hm. unfold jaccepts in *. rewrite fold_left_app.
+  destruct (fold_left jstep toks (Some (SVal, []))) as [[s stk]|]; [|discriminate].
+  destruct s; try discriminate. destruct stk; [|discriminate].
+  destruct more as [|t more]; [contradiction|]. cbn [fold_left].
+  assert (Hn : jstep (Some (SAfter, [])) t = None) by (destruct t; reflexivity).
+  rewrite Hn, jstep_none. reflexivity.
+Qed.
+
+(* the streaming variant (accept when some PREFIX of the body is one value) is refuted *)
+Theorem http_gate_streaming_refuted :
+  exists body pre rest,
+    body = append pre rest /\ json_one_value pre = true /\ json_one_value body = false.
+Proof. exists "{""mtp"":{}} {}"%string, "{""mtp"":{}}"%string, " {}"%string. vm_compute. auto. Qed.
+
+(* ------------------------------------------------------------------ *)
 (* 5b. the direct resolver inside ValidateCredentialStatus              *)
 (* ------------------------------------------------------------------ *)
 
@@ -1148,6 +1300,16 @@ Example ex_hex :
   hex_decode "0g00000000000000000000000000000000000000000000000000000000000000" = HBad /\
   hexf_of_member None = HNil.
 Proof. vm_compute. repeat split. Qed.
+
+Example ex_json_one_value :
+  map json_one_value
+    ["{}"; " {""a"":[1,2.5e-3,true,null,""xé\n""]} "; "null"; "-0"; "[]"; """a"""; "0.5E+2";
+     ""; "{"; "{} x"; "{}{}"; "[1 2]"; "{""a"" 1}"; "01"; "1."; "nul"; "{,}"; "[1,]"; "{""a"":}";
+     "'a'"; """\x"""; "tru e"; "[" ; "]"; "{""a"":1,}"; "1e"; "-"; "+1"]%string
+  = [true; true; true; true; true; true; true;
+     false; false; false; false; false; false; false; false; false; false; false; false;
+     false; false; false; false; false; false; false; false; false].
+Proof. vm_compute. reflexivity. Qed.
 
 Example ex_decode :
   decode_mtp (Some (mkwm true [Some 1; Some 0] (Some (Some 5, Some 0))))
